@@ -1070,6 +1070,7 @@ def rule_updmisc(text):
     """update-path one-offs: std::ptr::eq(a, b.as_ref()); `Some(ref x) = E`; value.to_vec()"""
     apps = []
     table = [
+        (r"\bexpired\s*\+=\s*1\s*;", "expired = count_up(expired);", "R-count", "a u64 progress counter incremented once per expired key: treated as non-overflowing (2^64 keys are unreachable)"),
         (r"let\s+_\s*=\s*(\(?\w+\)?)\s*\.\s*stats\s*\.\s*keys_with_ttl\s*\.\s*fetch_update\s*\(\s*Ordering::\w+\s*,\s*Ordering::\w+\s*,\s*\|(\w+)\|\s*\{?\s*Some\(\2\.saturating_sub\(([^()]+|\([^()]*\))\)\)\s*\}?\s*,?\s*\)\s*;",
          r"\1.stats.keys_with_ttl.saturating_dec((\3) as u64);", "R-atom", "shim: fetch_update with a saturating_sub closure = a saturating decrement of the (approximate) TTL key counter"),
         (r"std\s*::\s*ptr\s*::\s*eq\s*\(\s*(\w+)\s*,\s*(\w+)\s*\.\s*as_ref\s*\(\s*\)\s*\)", r"record_ptr_eq(\1, &\2)", "R-ptreq", "shim: pointer identity (an opaque boolean)"),
